@@ -87,6 +87,7 @@ class Walker(object):
         self.block_defs = {}    # block id -> ids defined inside that block
         self.cur_block = None
         self.section_ids = set()
+        self.no_subsections = False
 
     def times(self, e):
         if not self.with_times:
@@ -200,7 +201,7 @@ class Walker(object):
             self.section_ids.add(i)
         return self.header("Section", s) + [safe(lambda: s.repository), safe(lambda: s.reference)] + \
             self.link(lambda: s.link) + self.children(lambda: s.props, self.prop) + \
-            self.children(lambda: s.sections, self.section) + [CLOSE]
+            ([OPEN, CLOSE] if self.no_subsections else self.children(lambda: s.sections, self.section)) + [CLOSE]
 
     def block(self, b):
         self.cur_block = None
